@@ -27,7 +27,7 @@ LEVEL = META['level']
 RULE = ('a case = one (machine, encoding, tail, limit value, limit form) run; distinct by that tuple; non-trivial = the limit is smaller than encoding+tail or an inner length field was perturbed')
 ASSUMPTIONS = ['the limit is imposed by an enclosing dfa (limit=...) around the machine under test, the way CPF items and CIP command parsers are limited in the library']
 REQUIRED = ['runs', 'outcome:success', 'outcome:nonterminal', 'outcome:limit-assertion', 'form:int', 'form:path', 'form:callable', 'limit:0', 'limit:cuts-element', 'limit:exact', 'limit:beyond',
-            'monitor:conservation', 'monitor:invariant-evaluations', 'monitor:limit-respected', 'inner:shorter', 'inner:longer', 'repeat:exact', 'repeat:under-limit', 'machines:distinct>=25']
+            'monitor:conservation', 'monitor:invariant-evaluations', 'monitor:limit-respected', 'inner:shorter', 'inner:longer', 'repeat:exact', 'repeat:under-limit', 'input:chained-blocks', 'machines:distinct>=25']
 TIMEOUT = {'quick': 300, 'thorough': 1800}
 SOFT = {'quick': 30, 'thorough': 420}
 
@@ -49,6 +49,10 @@ class Counting:
 
 
 class ConservationBroken(Exception):
+    pass
+
+
+class StepCap(Exception):
     pass
 
 
@@ -102,6 +106,8 @@ def machines(env, rng):
     while not f.get('item'):
         f, ref = c01.gen_cpf(env, rng)
     out.append(('CPF', lambda **kw: p.CPF(**kw), ref))
+    # an Unconnected Send error reply between two other items: the item parser looks several symbols ahead and pushes them back
+    out.append(('CPF:error-item', lambda **kw: p.CPF(**kw), rc.enc_cpf([(0, b''), (0xB2, bytes([0xD2, 0, rng.choice([1, 4, 5, 8]), 0])), (0, b'')])))
     req = rc.enc_request(c01.gen_logix_request(env, rng)[1])
     out.append(('unconnected_send', lambda **kw: p.unconnected_send(**kw), rc.enc_unconnected_send(req, route_path=gen.route_path(rng) or [{'port': 1, 'link': 0}])))
     ident = {'version': 1, 'sin_family': 2, 'sin_port': 44818, 'sin_addr': '10.0.0.1', 'vendor_id': 1, 'device_type': 14, 'product_code': 54, 'product_revision': 0x0b14,
@@ -126,12 +132,24 @@ def machines(env, rng):
     return out
 
 
-def run_limited(env, name, factory, data_bytes, limit, form, inner_limit=None):
-    """the machine under test inside an enclosing dfa with the given limit.  -> dict of observations"""
+def run_limited(env, name, factory, data_bytes, limit, form, inner_limit=None, cuts=None):
+    """the machine under test inside an enclosing dfa with the given limit.  -> dict of observations.  With cuts, the input arrives
+    as blocks chained onto a chainable / remembering source only when the machine has used up what it holds (the way the servers
+    and the client receive), so that look-ahead and push-back cross block boundaries."""
     cpppo = env.cpppo
-    counter = Counting(data_bytes)
-    source = cpppo.peekable(counter)
-    source._verif = [counter]
+    pending = []
+    if cuts:
+        bounds = [0] + sorted(cuts) + [len(data_bytes)]
+        blocks = [Counting(data_bytes[a:b]) for a, b in zip(bounds, bounds[1:]) if b > a]
+        source = cpppo.rememberable() if (len(data_bytes) + len(cuts)) % 2 else cpppo.chainable()
+        source._verif = list(blocks)
+        source.chain(blocks[0])
+        pending = blocks[1:]
+        counter = None
+    else:
+        counter = Counting(data_bytes)
+        source = cpppo.peekable(counter)
+        source._verif = [counter]
     data = cpppo.dotdict()
     if factory is None:
         inner = env.device.Object.parser
@@ -156,10 +174,12 @@ def run_limited(env, name, factory, data_bytes, limit, form, inner_limit=None):
         with outer:
             # the enclosing dfa locks its sub-machine itself (dfa_base.delegate: `with self.current`)
             with contextlib.closing(outer.run(source=source, data=data)) as eng:
-                for _ in eng:
+                for _m, _s in eng:
                     steps += 1
                     if steps > 200000:
-                        raise RuntimeError('no termination')
+                        raise StepCap('no termination')
+                    if pending and _s is None and source.peek() is None:
+                        source.chain(pending.pop(0))
             term = outer.terminal
         if not term:
             outcome = 'not-terminal'
@@ -170,25 +190,29 @@ def run_limited(env, name, factory, data_bytes, limit, form, inner_limit=None):
     except AssertionError as exc:
         outcome = 'limit-assertion' if 'exceeded limit' in str(exc) or 'no progress' in str(exc) or 'limit' in str(exc).lower() else 'assertion'
         exc_text = str(exc)[:160]
-    except RuntimeError as exc:
+    except StepCap as exc:
         outcome, exc_text = 'no-termination', str(exc)
     except Exception as exc:
         outcome, exc_text = 'other:' + type(exc).__name__, str(exc)[:160]
     sent = source.sent
     back = len(source._back)
-    pulled = counter.pulled
+    pulled = sum(c.pulled for c in source._verif)
+    while pending:
+        source.chain(pending.pop(0))
     rest = bytes(source)                        # drain
     return {'outcome': outcome, 'exc': exc_text, 'sent': sent, 'back': back, 'pulled': pulled, 'rest': rest, 'data': data}
 
 
-def judge(ctx, env, name, factory, enc, tail, limit, form, perturbed=None, inner_limit=None):
+def judge(ctx, env, name, factory, enc, tail, limit, form, perturbed=None, inner_limit=None, cuts=None):
     whole = enc + tail
-    wit = {'machine': name, 'encoding': enc[:300], 'tail': tail[:40], 'limit': limit, 'form': form, 'perturbed': perturbed, 'inner_limit': inner_limit}
-    r = run_limited(env, name, factory, whole, limit, form, inner_limit)
+    wit = {'machine': name, 'encoding': enc[:300], 'tail': tail[:40], 'limit': limit, 'form': form, 'perturbed': perturbed, 'inner_limit': inner_limit, 'cuts': cuts}
+    r = run_limited(env, name, factory, whole, limit, form, inner_limit, cuts)
+    if cuts:
+        ctx.count('input:chained-blocks')
     ctx.count('runs')
     ctx.count('form:' + form)
     ctx.count('outcome:' + r['outcome'].split(':')[0])
-    ctx.case((name, whole[:120], len(whole), limit, form, inner_limit), nontrivial=(limit is not None and limit < len(whole)) or perturbed is not None)
+    ctx.case((name, whole[:120], len(whole), limit, form, inner_limit, tuple(cuts or ())), nontrivial=(limit is not None and limit < len(whole)) or perturbed is not None)
     eff = min(x for x in (limit, inner_limit) if x is not None) if (limit is not None or inner_limit is not None) else None
     # conservation: always
     ctx.count('monitor:conservation')
@@ -282,6 +306,14 @@ def _run(ctx):
                 form = rng.choice(['int', 'path', 'callable'])
                 judge(ctx, env, name, factory, enc, tail, limit, form)
             judge(ctx, env, name, factory, enc, tail, None, 'int')
+            # the same input arriving in blocks: every two-way split (sampled for long encodings), byte-wise, under no / exact / short limit
+            offs = list(range(1, T)) if T <= 48 else sorted(set(rng.randrange(1, T) for _ in range(24)))
+            if quick:
+                offs = [o for o in offs if rng.random() < 0.5] or offs[:1]
+            for o in offs:
+                judge(ctx, env, name, factory, enc, tail, rng.choice([None, L, T, max(1, L - 1)]), 'int', cuts=[o])
+            if T <= 64:
+                judge(ctx, env, name, factory, enc, tail, L, 'int', cuts=list(range(1, T)))
             if factory not in (None, 'CM') and L > 2:
                 # nested limits: the inner one may only shrink what the outer allows
                 judge(ctx, env, name, factory, enc, tail, L + 1, 'int', inner_limit=max(1, L - 1))
